@@ -50,9 +50,13 @@ pub fn mask_bits(v: i64, bits: usize) -> i64 {
 
 impl DeviceSim {
     pub fn new(script: &Script) -> Self {
+        let count = match &script.values {
+            ValueFn::Counter { init, .. } => *init,
+            _ => 0,
+        };
         DeviceSim {
             script: script.clone(),
-            count: 0,
+            count,
             prev_clk: false,
         }
     }
@@ -122,7 +126,11 @@ impl DeviceSim {
     ) -> DevAnswer {
         // state update for feedback devices
         if let ValueFn::Counter {
-            clk, rst, modulus, ..
+            clk,
+            rst,
+            modulus,
+            mask,
+            ..
         } = &self.script.values
         {
             let get = |i: usize| {
@@ -137,10 +145,10 @@ impl DeviceSim {
                 let r = rst
                     .map(|r| matches!(get(r), InVal::V(v) if v & 1 == 1))
                     .unwrap_or(false);
-                if r {
+                if r || self.count == *modulus - 1 {
                     self.count = 0;
                 } else {
-                    self.count = (self.count + 1) % *modulus;
+                    self.count = (self.count + 1) & *mask;
                 }
             }
             self.prev_clk = c;
